@@ -34,7 +34,7 @@ def run(prop, tier, seed):
         if not r["completed"] or r["timed_out"] or r["errors"]:
             mach.append("leg A %s did not complete: %s" % (name, r["errors"][:1]))
         for kind, inv in r["violations"]:
-            if inv in my_inv:
+            if inv in my_inv or (name == "prioreqstore" and inv.split("_")[1] == prop):
                 mach.append("design-level violation of %s in model config %s (not a verdict by itself; see DESIGN 2.3)"
                             % (inv, name))
     # ---- leg C
